@@ -153,6 +153,7 @@ func runC13(ctx *core.Ctx) {
 	ctx.MinNontrivial(int64(ctx.N(300, 1000)))
 	ctx.Floor("concurrent_calls", 100000)
 	ctx.Floor("sequential_repeat_calls", 10000)
+	ctx.Floor("cold_start_concurrent_calls", 5000)
 }
 
 // c13Stress runs the stress for one policy (in the child process).
@@ -208,6 +209,38 @@ func c13Stress(ctx *core.Ctx, only int) {
 			}
 		}
 		cs.Count("sequential_repeat_calls", nIn*repeats)
+		// cold start: a policy that has never sanitised anything is hit by all goroutines at once, so that
+		// lazily initialised state is first touched concurrently (the baseline above would otherwise
+		// have initialised it sequentially); a second, different policy runs in the same goroutines
+		other := spec.Build(spec.UGCOps())
+		otherBase := make([]string, nIn)
+		for i, in := range inputs {
+			otherBase[i] = other.Sanitize(in)
+		}
+		for k := 0; k < ctx.N(12, 60); k++ {
+			fresh := spec.Build(env.Ops)
+			freshOther := spec.Build(spec.UGCOps())
+			start := make(chan struct{})
+			var cw sync.WaitGroup
+			for g := 0; g < G; g++ {
+				cw.Add(1)
+				go func(g int) {
+					defer cw.Done()
+					<-start
+					i := (g*7 + k) % nIn
+					if got := SanitizeVia(fresh, inputs[i], g); got != base[i] {
+						cs.Violate("C13:cold-start-differs:"+firstDiffToken(got, base[i]), fmt.Sprintf("first concurrent calls on a freshly built policy returned %q, sequential result is %q; input=%q", core.Clip(got, 200), core.Clip(base[i], 200), core.Clip(inputs[i], 200)), wit(i, map[string]interface{}{"got": core.Show(got)}))
+					}
+					if got := SanitizeVia(freshOther, inputs[i], g+1); got != otherBase[i] {
+						cs.Violate("C13:cold-start-differs:second-policy", fmt.Sprintf("a second policy used concurrently returned %q, alone it returns %q; input=%q", core.Clip(got, 200), core.Clip(otherBase[i], 200), core.Clip(inputs[i], 200)), wit(i, map[string]interface{}{"got": core.Show(got)}))
+					}
+				}(g)
+			}
+			close(start)
+			cw.Wait()
+			cs.EvalN(2 * G)
+			cs.Count("cold_start_concurrent_calls", 2*G)
+		}
 		// concurrent stress
 		var wg sync.WaitGroup
 		var mism int64
@@ -238,6 +271,11 @@ func c13Stress(ctx *core.Ctx, only int) {
 						}
 						got := SanitizeVia(env.Pol, inputs[i], g+round+i)
 						atomic.AddInt64(&inFlight, -1)
+						if (g+i)%16 == 0 { // a different policy in the same goroutines: state shared between policies shows here
+							if o := other.Sanitize(inputs[i]); o != otherBase[i] && atomic.AddInt64(&mism, 1) <= 3 {
+								cs.Violate("C13:concurrent-differs:second-policy", fmt.Sprintf("a second policy used concurrently returned %q, alone it returns %q; input=%q", core.Clip(o, 200), core.Clip(otherBase[i], 200), core.Clip(inputs[i], 200)), wit(i, map[string]interface{}{"got": core.Show(o)}))
+							}
+						}
 						if got != base[i] {
 							if atomic.AddInt64(&mism, 1) <= 3 {
 								cs.Violate("C13:concurrent-differs:"+firstDiffToken(got, base[i]), fmt.Sprintf("concurrent call via %s returned %q, sequential result is %q; input=%q", EntryNames[(g+round+i)%5], core.Clip(got, 200), core.Clip(base[i], 200), core.Clip(inputs[i], 200)), wit(i, map[string]interface{}{"got": core.Show(got)}))
